@@ -6,6 +6,7 @@ import (
 	"fmt"
 	"go/token"
 	"go/types"
+	"sort"
 	"strings"
 
 	"golang.org/x/tools/go/ssa"
@@ -648,6 +649,7 @@ func runDisp1(m *Model, r *RuleResult) {
 			continue
 		}
 		recv := ssa.Value(f.Params[0])
+		notRecv := map[ssa.Value]bool{}
 		isAlgTest := func(c ssa.Value) bool {
 			bo, ok := c.(*ssa.BinOp)
 			if !ok || (bo.Op != token.EQL && bo.Op != token.NEQ) {
@@ -668,7 +670,21 @@ func runDisp1(m *Model, r *RuleResult) {
 			}
 			_, c1 := bo.Y.(*ssa.Const)
 			_, c0 := bo.X.(*ssa.Const)
-			return (strip(bo.X) == recv && c1) || (strip(bo.Y) == recv && c0)
+			if (strip(bo.X) == recv && c1) || (strip(bo.Y) == recv && c0) {
+				return true
+			}
+			// a value of the algorithm type that is not the receiver itself (the receiver variable was overwritten on some path)
+			other := bo.X
+			if c0 {
+				other = bo.Y
+			}
+			if (c0 || c1) && !(c0 && c1) && types.Identical(strip(other).Type(), recv.Type()) {
+				if _, isNamed := recv.Type().(*types.Named); isNamed {
+					notRecv[strip(other)] = true
+					return true
+				}
+			}
+			return false
 		}
 		// dispatch targets: same-package static callees taking the graph, called under an algorithm test
 		type site struct {
@@ -707,6 +723,15 @@ func runDisp1(m *Model, r *RuleResult) {
 				sites = append(sites, site{ci, c, deps})
 			}
 		})
+		if len(sites) > 0 && len(notRecv) > 0 {
+			var vs []string
+			for v := range notRecv {
+				vs = append(vs, v.String()+" at "+m.Pos(v.Pos()))
+			}
+			sort.Strings(vs)
+			r.add(Obligation{Key: "dispatch-value:" + funcKey(f), Pos: m.Pos(f.Pos()), Desc: "the dispatch compares the receiver (the option's value) with the algorithm constants", Verdict: "violation",
+				Detail: "the dispatched value is " + strings.Join(vs, "; ") + ", not the receiver: the algorithm value is replaced on some path before the dispatch, so the caller silently gets a different algorithm than the one selected", Control: ctl})
+		}
 		isTargetBlock := map[*ssa.BasicBlock]bool{}
 		for _, s := range sites {
 			isTargetBlock[s.in.Block()] = true
@@ -930,6 +955,45 @@ func runOrd6(m *Model, r *RuleResult) {
 				}
 			}
 			visit(a.rec)
+			// ... and after the loop the record is frozen: a store into one of its fields that the loop's exit reaches replaces what
+			// the caller asked for (`if len(G.Nodes) > 500 { opts.params.NodeSpacing = 10 }`)
+			var late []string
+			if _, isAlloc := a.rec.(*ssa.Alloc); isAlloc {
+				var visitW func(addr ssa.Value, depth int)
+				visitW = func(addr ssa.Value, depth int) {
+					if addr.Referrers() == nil {
+						return
+					}
+					for _, ref := range *addr.Referrers() {
+						switch x := ref.(type) {
+						case *ssa.FieldAddr:
+							visitW(x, depth+1)
+						case *ssa.Store:
+							if x.Addr != addr || a.loop.Body[x.Block()] {
+								continue
+							}
+							after := false
+							for b := range a.loop.Body {
+								for _, sc := range b.Succs {
+									if !a.loop.Body[sc] && (sc == x.Block() || blocksReachableFrom(sc)[x.Block()]) {
+										after = true
+									}
+								}
+							}
+							if after {
+								late = append(late, m.Pos(x.Pos()))
+							}
+						}
+					}
+				}
+				visitW(a.rec, 0)
+			}
+			if len(late) == 0 {
+				r.add(Obligation{Key: "options-frozen-after-applied:" + funcKey(f), Pos: m.Pos(a.in.Pos()), Desc: "nothing is stored into the options record after the option functions have been applied", Verdict: "holds", Control: ctl})
+			} else {
+				r.add(Obligation{Key: "options-frozen-after-applied:" + funcKey(f), Pos: m.Pos(a.in.Pos()), Desc: "the options record must not be modified after the options are applied", Verdict: "violation",
+					Detail: "store at " + strings.Join(uniq(late), ", ") + ", after the loop that applies the caller's options: what the caller asked for is overwritten", Control: ctl})
+			}
 			// the initial copy of the defaults into the record is a store, not a read of the record: nothing to exclude
 			if len(bad) == 0 {
 				r.add(Obligation{Key: key, Pos: m.Pos(a.in.Pos()), Desc: "the options record is read only after all option functions have been applied to it", Verdict: "holds", Control: ctl})
